@@ -534,7 +534,7 @@ theorem exec_bal_aux (ops : List Op) : ∀ (s : LSt), Inv s.g → Bal s →
 /-- over any history -/
 theorem exec_bal (n : Nat) (h : 2 ≤ n) (ops : List Op) :
     ∃ s, (LSt.new n).exec ops = some s ∧ s.g = (Gc.new n).exec ops ∧ Inv s.g ∧ Bal s :=
-  exec_bal_aux ops (LSt.new n) (inv_new n h) (bal_new n h)
+  exec_bal_aux ops (LSt.new n) (inv_new n (by omega)) (bal_new n h)
 
 /-! ### counting -/
 
